@@ -14,13 +14,13 @@ from lightworks import emulator as emu
 from .. import kernel
 from ..circuit_ops import Env, REJECT_TYPES, full_fingerprint
 
-SLOTS = ["P", "A", "B", "Q", "C", "L", "W"]
+SLOTS = ["P", "A", "B", "Q", "C", "L", "W", "G", "E", "O"]
 
 
 def init_pool(env):
     P = lw.Circuit(4)
     P.bs(0, reflectivity=env.R[1])
-    A = lw.Circuit(2); A.bs(0, reflectivity=env.R2, convention="H"); A.ps(1, env.PH[0])
+    A = lw.Circuit(2); A.bs(0, reflectivity=env.R2, convention="H"); A.barrier([0, 1]); A.ps(1, env.PH[0])
     B = lw.Unitary(env.Usub[1].copy()); B.herald(1, 1)
     Q = lw.Circuit(4); Q.add(B, 1); Q.ps(0, env.PH[1])
     S = lw.State([1, 0, 1, 0])
@@ -28,7 +28,11 @@ def init_pool(env):
     # swaps, lossless: two separate runs of mergeable swaps with a blocker in between
     W = lw.Circuit(4); W.mode_swaps({0: 2, 2: 1, 1: 0}); W.mode_swaps({0: 1, 1: 0}); W.bs(1, 3, reflectivity=env.R2)
     W.mode_swaps({2: 3, 3: 2}); W.mode_swaps({0: 3, 3: 0, 1: 2, 2: 1})
-    return {"P": P, "A": A, "B": B, "Q": Q, "C": None, "S": S, "L": L, "W": W}
+    g = lw.Circuit(2); g.bs(0, reflectivity=lw.Parameter(env.R2, label="g")); g.ps(1, lw.Parameter(env.PH[1]))
+    G = lw.Circuit(4); G.add(g, 1, group=True); G.ps(0, lw.Parameter(env.PH[0], label="top"))   # Parameters inside a group
+    E = lw.Circuit(4)                                                                          # empty
+    O = lw.Circuit(4); O.add(A, 1, group=True)                                                 # exactly one group
+    return {"P": P, "A": A, "B": B, "Q": Q, "C": None, "S": S, "L": L, "W": W, "G": G, "E": E, "O": O}
 
 
 def alphabet(env):
@@ -46,7 +50,9 @@ def alphabet(env):
             ("plus", "P", "W"), ("plus", "L", "P"), ("add", "P", "W", 0, False), ("add", "L", "A", 1, True)]
     ops += [("edit", "A", "bs"), ("edit", "A", "loss"), ("edit", "B", "ps"), ("edit", "B", "herald"),
             ("edit", "P", "herald"), ("edit", "Q", "swap"), ("edit", "P", "bsloss")]
-    ops += [("copy", "P"), ("copy", "Q"), ("freeze", "Q"), ("copy", "B"), ("copy", "W")]
+    ops += [("copy", "P"), ("copy", "Q"), ("freeze", "Q"), ("copy", "B"), ("copy", "W"),
+            ("copy", "G"), ("freeze", "G"), ("copy", "O"), ("plus", "E", "P"), ("plus", "P", "E"), ("plus", "E", "W"),
+            ("edit", "C", "unpack_then_ps"), ("edit", "O", "unpack_then_ps")]
     ops += [("edit", "C", "unpack"), ("edit", "C", "compress"), ("edit", "C", "remove"), ("edit", "C", "bs"),
             ("add", "C", "A", 1, False), ("add", "P", "C", 0, False)]
     for tgt in ("P", "Q"):
@@ -103,6 +109,7 @@ def apply_op(pool, op, env):
             elif what == "swap": c.mode_swaps({0: 2, 2: 0})
             elif what == "bsloss": c.bs(2, 0, reflectivity=env.R2, loss=env.L2, convention="H")
             elif what == "unpack": c.unpack_groups()
+            elif what == "unpack_then_ps": c.unpack_groups(); c.ps(0, 0.41); c.loss(1, env.L2)
             elif what == "compress": c.compress_mode_swaps()
             elif what == "remove": c.remove_non_adjacent_bs()
         except REJECT_TYPES:
@@ -187,8 +194,22 @@ def build(hist, env):
     return pool
 
 
+def sharing(pool):
+    """Which circuits of the pool share mutable innards (the spec list itself, or the contents list of a group).
+    Two pools with equal fingerprints but different sharing have different futures, so this is part of the state."""
+    def lists(c):
+        spec = c._Circuit__circuit_spec
+        out = [id(spec)]
+        for comp in spec:
+            if type(comp).__name__ == "Group":
+                out.append(id(comp.circuit_spec))
+        return set(out)
+    ids = {k: lists(pool[k]) for k in SLOTS if pool[k] is not None}
+    return tuple(sorted((a, b) for a in ids for b in ids if a < b and ids[a] & ids[b]))
+
+
 def pool_key(pool):
-    return kernel.fp8(tuple(sorted((k, kernel.canon(v)) for k, v in fingerprints(pool).items())))
+    return kernel.fp8((tuple(sorted((k, kernel.canon(v)) for k, v in fingerprints(pool).items())), sharing(pool)))
 
 
 def explore(env, depth, alpha):
